@@ -16,6 +16,7 @@ use crate::util::{hx, Report, Rng};
 use discv5::enr::NodeId;
 use discv5::{Enr, NodeContact};
 use serde_json::{json, Value};
+use parking_lot::Mutex;
 use std::collections::{HashMap, HashSet};
 use std::net::SocketAddr;
 use std::time::Duration;
@@ -27,11 +28,13 @@ pub enum Focus {
     C02,
     C03,
     C04,
+    C07,
     C09,
     C10,
     C12,
     C13,
     C14,
+    C16,
     C17,
     C19,
     C20,
@@ -44,6 +47,8 @@ impl Focus {
             Focus::C02 => "C02",
             Focus::C03 => "C03",
             Focus::C04 => "C04",
+            Focus::C07 => "C07",
+            Focus::C16 => "C16",
             Focus::C09 => "C09",
             Focus::C10 => "C10",
             Focus::C12 => "C12",
@@ -1714,9 +1719,271 @@ pub fn run_votes(p: &crate::util::Params, tag: u64, quick: u64, thorough: u64, r
 }
 
 /* ---------------------------------------------------------------------------------------- */
+/* real concurrency: user threads on the public API while the node talks to the network       */
+
+/// Structural walk of the live routing table under its own read lock (never mutating).
+fn walk_table(d: &discv5::Discv5, local: &Id, ip_limit: bool, incoming_limit: usize, out: &mut Vec<(String, String)>) -> (usize, usize) {
+    d.with_kbuckets(|kb| {
+        let kb = kb.read();
+        let mut seen: HashSet<Id> = HashSet::new();
+        let mut table_subnets: HashMap<[u8; 3], usize> = HashMap::new();
+        let mut entries = 0usize;
+        let mut full = 0usize;
+        for (bi, b) in kb.buckets_iter().enumerate() {
+            let nodes: Vec<_> = b.iter().collect();
+            entries += nodes.len();
+            if nodes.len() > 16 {
+                out.push(("too-many-nodes".into(), format!("bucket {bi} holds {} nodes", nodes.len())));
+            }
+            if nodes.len() == 16 {
+                full += 1;
+            }
+            let mut seen_connected = false;
+            let mut incoming_connected = 0usize;
+            let mut subnets: HashMap<[u8; 3], usize> = HashMap::new();
+            for n in &nodes {
+                let id = n.key.preimage().raw();
+                if id == *local {
+                    out.push(("local-node-stored".into(), format!("the local id sits in bucket {bi}")));
+                }
+                if log2(local, &id) != bi as u64 + 1 {
+                    out.push(("wrong-bucket".into(), format!("a node at log2 distance {} sits in bucket {bi}", log2(local, &id))));
+                }
+                if !seen.insert(id) {
+                    out.push(("duplicate-id".into(), format!("node {} occurs twice", hx(&id[..4]))));
+                }
+                if n.status.is_connected() {
+                    seen_connected = true;
+                    if n.status.is_incoming() {
+                        incoming_connected += 1;
+                    }
+                } else if seen_connected {
+                    out.push(("disconnected-after-connected".into(), format!("bucket {bi}: a disconnected node follows a connected one")));
+                }
+                if let Some(ip) = n.value.ip4() {
+                    let o = ip.octets();
+                    *subnets.entry([o[0], o[1], o[2]]).or_default() += 1;
+                    *table_subnets.entry([o[0], o[1], o[2]]).or_default() += 1;
+                }
+            }
+            if let Some(p) = b.pending() {
+                let id = p.value().node_id().raw();
+                if seen.contains(&id) {
+                    out.push(("duplicate-id".into(), format!("node {} is stored and pending in bucket {bi}", hx(&id[..4]))));
+                }
+            }
+            if incoming_connected > incoming_limit {
+                out.push(("too-many-incoming".into(), format!("bucket {bi} has {incoming_connected} connected incoming nodes, limit {incoming_limit}")));
+            }
+            if ip_limit {
+                if let Some((sn, c)) = subnets.iter().find(|(_, c)| **c > 2) {
+                    out.push(("bucket-subnet-limit".into(), format!("bucket {bi} holds {c} nodes of {sn:?}/24")));
+                }
+            }
+        }
+        if ip_limit {
+            if let Some((sn, c)) = table_subnets.iter().find(|(_, c)| **c > 10) {
+                out.push(("table-subnet-limit".into(), format!("the table holds {c} nodes of {sn:?}/24")));
+            }
+        }
+        (entries, full)
+    })
+}
+
+/// An unmodified Discv5 on a multi-thread runtime in real time: the network loop feeds it
+/// datagrams while user threads call the public API. Only schedule-independent monitors run:
+/// the structural walk of the table under its lock (C07, C12 local id, C16 limits), nonce
+/// uniqueness and datagram size over everything sent, no panic in the crate.
+pub fn concurrent(seed: u64, focus: Focus, rep: &mut Report) {
+    use std::sync::atomic::{AtomicBool, AtomicU64, Ordering};
+    use std::sync::Arc;
+    let rt = tokio::runtime::Builder::new_multi_thread().worker_threads(3).enable_all().build().expect("runtime");
+    rt.block_on(async {
+        let mut rng = Rng::new(seed ^ 0x3717);
+        let ip_limit = rng.bool();
+        let incoming_limit = *rng.pick(&[16usize, 16, 3, 0]);
+        let cfg = WorldCfg {
+            stack: Stack3::V4,
+            victim_enr_has_addr: true,
+            request_timeout: Duration::from_millis(40),
+            request_retries: 1,
+            tweak: Box::new(move |b| {
+                if ip_limit {
+                    b.ip_limit();
+                }
+                b.incoming_bucket_limit(incoming_limit);
+                b.ping_interval(Duration::from_millis(150));
+                b.query_timeout(Duration::from_millis(800));
+                b.query_peer_timeout(Duration::from_millis(100));
+            }),
+        };
+        let mut s = Sys::start(seed, focus, cfg, 16).await;
+        // many nodes in few /24s so that the limits matter, ids spread by chance
+        let n = 40 + rng.usize(40);
+        let mut all = Vec::new();
+        for k in 0..n {
+            let subnet = if rng.chance(2, 3) { 1 } else { 2 + rng.below(6) as u8 };
+            let a = v4(10, 20, subnet, 1 + (k % 250) as u8, 9000 + k as u16);
+            all.push(s.w.add_node(a, EnrAddr::Socket(a), 1 + rng.below(3)));
+        }
+        let total = s.w.nodes.len();
+        for i in 0..total {
+            let mut nb: Vec<usize> = (0..total).filter(|j| *j != i).collect();
+            s.w.rng.shuffle(&mut nb);
+            nb.truncate(12);
+            s.w.nodes[i].neighbours = nb;
+        }
+        let enrs: Vec<Enr> = all.iter().map(|i| s.w.enr(*i)).collect();
+        let local = s.w.victim_id;
+        let d = s.w.discv5.clone();
+        let stop = Arc::new(AtomicBool::new(false));
+        let found: Arc<Mutex<Vec<(String, String)>>> = Arc::new(Mutex::new(Vec::new()));
+        let walks = Arc::new(AtomicU64::new(0));
+        let api_ops = Arc::new(AtomicU64::new(0));
+        let max_entries = Arc::new(AtomicU64::new(0));
+        let full_seen = Arc::new(AtomicU64::new(0));
+        let handle = tokio::runtime::Handle::current();
+        let mut threads = Vec::new();
+        for t in 0..3u64 {
+            let (d, stop, found, walks, api_ops, enrs, handle, max_entries, full_seen) = (d.clone(), stop.clone(), found.clone(), walks.clone(), api_ops.clone(), enrs.clone(), handle.clone(), max_entries.clone(), full_seen.clone());
+            let mut r = Rng::new(seed ^ (0x7000 + t));
+            threads.push(std::thread::spawn(move || {
+                while !stop.load(Ordering::Relaxed) {
+                    api_ops.fetch_add(1, Ordering::Relaxed);
+                    match r.below(40) {
+                        0..=15 => {
+                            let _ = d.add_enr(r.pick(&enrs).clone());
+                        }
+                        16..=19 => {
+                            let _ = d.remove_node(&r.pick(&enrs).node_id());
+                        }
+                        20..=22 => {
+                            let _ = d.table_entries();
+                        }
+                        23..=25 => {
+                            let _ = d.nodes_by_distance(vec![256, 255, 254]);
+                        }
+                        26 | 27 => {
+                            let id = r.pick(&enrs).node_id();
+                            d.ban_node(&id, Some(Duration::from_millis(5)));
+                            d.ban_node_remove(&id);
+                        }
+                        28 | 29 => {
+                            let _ = d.disconnect_node(&r.pick(&enrs).node_id());
+                        }
+                        30 if r.chance(1, 8) => {
+                            let target: Id = r.array();
+                            let fut = d.find_node(NodeId::new(&target));
+                            let _ = handle.block_on(async { tokio::time::timeout(Duration::from_millis(120), fut).await });
+                        }
+                        _ => {
+                            let mut out = Vec::new();
+                            let (entries, full) = walk_table(&d, &local, ip_limit, incoming_limit, &mut out);
+                            walks.fetch_add(1, Ordering::Relaxed);
+                            max_entries.fetch_max(entries as u64, Ordering::Relaxed);
+                            full_seen.fetch_add(full as u64, Ordering::Relaxed);
+                            if !out.is_empty() {
+                                found.lock().extend(out);
+                            }
+                        }
+                    }
+                }
+            }));
+        }
+        // the network: real time, the simulated nodes keep talking to the node under test
+        let steps = 250 + rng.usize(250);
+        for _ in 0..steps {
+            match rng.below(8) {
+                0 | 1 => {
+                    let i = *rng.pick(&all);
+                    let seq = s.w.nodes[i].sim.ident.enr.seq();
+                    s.w.node_request(i, RefMessage::Ping { id: vec![], enr_seq: seq });
+                }
+                2 => {
+                    let i = *rng.pick(&all);
+                    s.w.node_request(i, RefMessage::FindNode { id: vec![], distances: vec![256, 255] });
+                }
+                3 => {
+                    let i = *rng.pick(&all);
+                    s.w.node_lose_session(i);
+                }
+                _ => {}
+            }
+            s.w.step().await;
+            s.w.end_step();
+            for (_, t) in std::mem::take(&mut s.w.talk_inbox) {
+                let _ = t.respond(vec![1]);
+            }
+        }
+        stop.store(true, Ordering::Relaxed);
+        for t in threads {
+            let _ = tokio::task::block_in_place(|| t.join());
+        }
+        let mut out = Vec::new();
+        walk_table(&d, &local, ip_limit, incoming_limit, &mut out);
+        found.lock().extend(out);
+        let wit = json!({"scenario_seed": seed.to_string(), "kind": "system-concurrent", "focus": focus.tag(), "ip_limit": ip_limit, "incoming_limit": incoming_limit, "note": "real-time multi-thread run: the schedule is not reproducible from the seed"});
+        for (sig, what) in found.lock().iter() {
+            let prop = match sig.as_str() {
+                "bucket-subnet-limit" | "table-subnet-limit" => Focus::C16,
+                "local-node-stored" => Focus::C12,
+                _ => Focus::C07,
+            };
+            // the local id in the table breaks C07 as well as C12
+            if prop == focus || (sig == "local-node-stored" && focus == Focus::C07) {
+                rep.violation(&format!("{}:{sig}", focus.tag()), format!("{what} (seen under concurrent API calls)"), wit.clone());
+            }
+        }
+        // schedule-independent wire checks
+        let mut nonces: HashMap<[u8; 12], Vec<u8>> = HashMap::new();
+        for (_, to, b) in &s.w.all_sent {
+            if b.len() > 1280 && focus == Focus::C14 {
+                rep.violation("C14:datagram-exceeds-1280", format!("a datagram of {} bytes was sent to {to}", b.len()), wit.clone());
+            }
+            let Some(i) = s.w.nodes.iter().position(|n| n.sim.addr() == *to) else { continue };
+            let Ok(dec) = codec_ref::decode(&s.w.nodes[i].sim.ident.id, b) else { continue };
+            if !matches!(dec.kind, RefKind::WhoAreYou { .. }) {
+                if let Some(prev) = nonces.insert(dec.nonce, b.clone()) {
+                    if prev != *b && focus == Focus::C19 {
+                        rep.violation("C19:nonce-reused", format!("two different datagrams carry message nonce {}", hx(&dec.nonce)), wit.clone());
+                    }
+                }
+            }
+        }
+        rep.evaluations += 1;
+        rep.count("sys_concurrent_scenarios");
+        rep.count_n("sys_concurrent_table_walks", walks.load(Ordering::Relaxed));
+        rep.count_n("sys_concurrent_api_calls", api_ops.load(Ordering::Relaxed));
+        rep.count_n("sys_concurrent_full_buckets_seen", full_seen.load(Ordering::Relaxed));
+        rep.count_n("sys_concurrent_datagrams_sent", s.w.all_sent.len() as u64);
+        rep.max("sys_concurrent_table_size", max_entries.load(Ordering::Relaxed));
+        rep.fingerprint(&("sys-concurrent", focus, ip_limit, incoming_limit, (max_entries.load(Ordering::Relaxed) / 8)));
+    });
+}
+
+pub fn run_concurrent(p: &crate::util::Params, focus: Focus, tag: u64, quick: u64, thorough: u64, rep: &mut Report) {
+    let n = p.budget(quick, thorough);
+    for i in 0..n {
+        let seed = p.shard_seed(tag + i);
+        crate::util::guarded(rep, seed, |rep| concurrent(seed, focus, rep));
+    }
+}
+
+/* ---------------------------------------------------------------------------------------- */
 /* replay                                                                                    */
 
 pub fn replay(r: &Value, rep: &mut Report) -> bool {
+    if r["replay"]["kind"] == "system-concurrent" {
+        let seed: u64 = r["replay"]["scenario_seed"].as_str().unwrap().parse().unwrap();
+        let focus = match r["replay"]["focus"].as_str().unwrap_or("") {
+            "C12" => Focus::C12,
+            "C16" => Focus::C16,
+            "C19" => Focus::C19,
+            _ => Focus::C07,
+        };
+        concurrent(seed, focus, rep);
+        return true;
+    }
     if r["replay"]["kind"] != "system" {
         return false;
     }
@@ -1726,6 +1993,8 @@ pub fn replay(r: &Value, rep: &mut Report) -> bool {
         "C02" => Focus::C02,
         "C03" => Focus::C03,
         "C04" => Focus::C04,
+        "C07" => Focus::C07,
+        "C16" => Focus::C16,
         "C09" => Focus::C09,
         "C10" => Focus::C10,
         "C12" => Focus::C12,
@@ -1771,6 +2040,11 @@ pub fn run_debug(p: &crate::util::Params) -> Report {
             crate::util::guarded(&mut rep, seed, |rep| lookup(seed, f, rep));
         }
         crate::util::guarded(&mut rep, seed, |rep| votes(seed, rep));
+        if i % 8 == 0 {
+            for f in [Focus::C07, Focus::C16] {
+                crate::util::guarded(&mut rep, seed, |rep| concurrent(seed, f, rep));
+            }
+        }
     }
     rep
 }
